@@ -219,7 +219,8 @@ func (v4proto) BuildReply(reqWire []byte, kind replyKind, serial uint32, altXid 
 		b = []byte{}
 	case rkOversize:
 		// trailing pad bytes after the end option: the 1500 bytes the client reads still decode
-		b = append(b, make([]byte, 1501+int(serial%200)-len(b))...)
+		// (at most 1540: a raw-frame reader offering 1500 bytes must have room for 60 + 8 + 1500)
+		b = append(b, make([]byte, 1501+int(serial%40)-len(b))...)
 	}
 	return b
 }
